@@ -20,6 +20,7 @@ returns non-zero at the boundary.
 """
 import builtins
 import errno
+import functools
 import json
 import logging
 import os
@@ -31,6 +32,7 @@ import threading
 import time as _time
 from pathlib import Path
 
+import common
 import jadeenv
 from jadeenv import jname, jid
 
@@ -166,6 +168,7 @@ class VCluster:
         self.squeue_noise = []
         self.epoch = 0             # number of resubmissions prepared so far (prepare_for_resubmission calls)
         self._patched = []
+        self.harness_errors = []   # failures of observation wrappers (never raised into the code under test)
 
     # ------------------------------------------------------------------ logging of events
     def log(self, kind, *data):
@@ -325,7 +328,7 @@ class VCluster:
                 return float(vc.clock)
 
         for m in (rc, hs, jq, jr, cj, rj, cl, ra, acc, js):
-            patch(m, "time", FakeTime)
+            patch(m, "time", common.dual_time(FakeTime))
         patch(socket, "gethostname", lambda: vc.cur().host if getattr(_tls, "pid", None) in vc.procs else "harness")
 
         class Sub:
@@ -418,6 +421,15 @@ class VCluster:
                 mutation(a, "remove")
                 return s._real.remove(a, *x, **kw)
 
+            # the same two operations under their other names
+            def unlink(s, a, *x, **kw):
+                mutation(a, "remove")
+                return s._real.unlink(a, *x, **kw)
+
+            def replace(s, a, b, *x, **kw):
+                mutation(a, "rename")
+                return s._real.replace(a, b, *x, **kw)
+
         for m in (cl, ra, hs, js, ju):
             patch(m, "open", tracked_open)
             if hasattr(m, "os"):
@@ -429,18 +441,68 @@ class VCluster:
             return real_touch(s, *a, **kw)
         patch(Path, "touch", touch)
 
+        # The same mutations spelled with pathlib (`lock_file.unlink()` for `os.remove(lock_file)`, `Path(f).write_text(t)`
+        # for `with open(f, "w")`): a harmless rewrite must not make a file mutation invisible.  Counted only when the call
+        # comes from one of the modules whose `open` / `os` are tracked above, so nothing else changes.
+        tracked_modules = {m.__name__ for m in (cl, ra, hs, js, ju)}
+
+        def from_tracked_module():
+            f = sys._getframe(2)
+            while f is not None and f.f_globals.get("__name__") in ("pathlib", __name__):
+                f = f.f_back
+            return f is not None and f.f_globals.get("__name__") in tracked_modules
+
+        def path_method(name, how):
+            real = getattr(Path, name)
+
+            def w(s, *a, **kw):
+                h = how(*a, **kw)
+                if h is not None and from_tracked_module():
+                    mutation(s, h)
+                return real(s, *a, **kw)
+            patch(Path, name, w)
+
+        def open_how(mode="r", *a, **kw):
+            return "open-" + mode if any(c in mode for c in "wa+x") else None
+        path_method("unlink", lambda *a, **kw: "remove")
+        path_method("rename", lambda *a, **kw: "rename")
+        path_method("replace", lambda *a, **kw: "rename")
+        path_method("open", open_how)          # also reached by write_text / write_bytes
+
         # ---- observation wrappers (call the original)
         C = cl.Cluster
 
         def wrap(cls, name, before=None, after=None):
+            """The observers get the arguments as the wrapped function declares them, positionally and with defaults filled
+            in, however the caller spelled the call (positional / keyword) and whatever the parameters are called.  An
+            observer must never change what the code under test does: a failing observer is recorded (the case becomes
+            a harness failure at uninstall) and the original still runs."""
+            import inspect
             orig = getattr(cls, name)
+            sig = inspect.signature(orig)
+
+            def observe(fn, self_, head, a, kw):
+                try:
+                    b = sig.bind(self_, *a, **kw)
+                except TypeError:
+                    return          # the real call raises the same TypeError
+                try:
+                    b.apply_defaults()
+                    if any(p.kind in (p.VAR_POSITIONAL, p.VAR_KEYWORD) for p in sig.parameters.values()):
+                        fn(self_, *head, *a, **kw)
+                    else:
+                        fn(self_, *head, *list(b.arguments.values())[1:])
+                except (Parked, KeyboardInterrupt):
+                    raise
+                except Exception as e:  # noqa
+                    vc.harness_errors.append(f"observer of {cls.__name__}.{name}: {type(e).__name__}: {e}")
 
             def w(self_, *a, **kw):
                 if before:
-                    before(self_, *a, **kw)
+                    observe(before, self_, (), a, kw)
                 r = orig(self_, *a, **kw)
                 if after:
-                    after(self_, r, *a, **kw)
+                    observe(after, self_, (r,), a, kw)
                 return r
             patch(cls, name, w)
 
@@ -468,6 +530,7 @@ class VCluster:
             fn = getattr(orig, "__func__", orig)
             is_cm = getattr(orig, "__self__", None) is cls
 
+            @functools.wraps(fn)       # keeps the declared signature visible to `wrap` (inspect follows __wrapped__)
             def w(first, *a, **kw):
                 inside = getattr(_tls, "pid", None) in vc.procs
                 if inside:
@@ -494,6 +557,14 @@ class VCluster:
         sys.stdout = open(os.devnull, "w")
 
     def uninstall(self):
+        try:
+            self._uninstall()
+        finally:
+            errs, self.harness_errors = self.harness_errors, []
+        if errs and sys.exc_info()[0] is None:
+            raise RuntimeError("harness observation failed: " + "; ".join(errs[:3]))
+
+    def _uninstall(self):
         for obj, name, old, had in reversed(self._patched):
             if had:
                 setattr(obj, name, old)
